@@ -63,18 +63,50 @@ def rcell : RCell → String
 def dumpTable (t : Csv.Table) : String :=
   s!"cols={hexList "," t.columns} rows=" ++ ";".intercalate (t.rows.map fun r => ",".intercalate (r.map rcell))
 
-/-- `<ncols> <name>*ncols <cell>*` -/
-def tableArgs (ts : List String) : Option (List Bytes × List Cell) :=
+structure ItemAcc where
+  items : List Csv.WItem := []
+  /-- cells of the array literal being read -/
+  cur : Option (List Cell) := none
+  /-- the last array `Var` made (re-sent by `=`) -/
+  last : Option (List Cell) := none
+  /-- lengths of the array `Var`s, in order of creation (the caller's arrays stay as they were) -/
+  lens : List Nat := []
+
+/-- items: `s:<hex>` / `n:<text>` cells, `[` cells `]` one array `Var`, `=` the previous array `Var` again -/
+def parseItems : List String → ItemAcc → Option ItemAcc
+  | [], a => if a.cur.isSome then none else some a
+  | "[" :: t, a => if a.cur.isSome then none else parseItems t { a with cur := some [] }
+  | "]" :: t, a =>
+    match a.cur with
+    | some cs => parseItems t { a with cur := none, last := some cs, items := a.items ++ [.arr cs], lens := a.lens ++ [cs.length] }
+    | none => none
+  | "=" :: t, a =>
+    match a.cur, a.last with
+    | none, some cs => parseItems t { a with items := a.items ++ [.arr cs] }
+    | _, _ => none
+  | s :: t, a =>
+    match parseCell s with
+    | some c =>
+      match a.cur with
+      | some cs => parseItems t { a with cur := some (cs ++ [c]) }
+      | none => parseItems t { a with items := a.items ++ [.cell c] }
+    | none => none
+
+/-- `<ncols> <name>*ncols <item>*` -/
+def tableArgs (ts : List String) : Option (List Bytes × List Csv.WItem × List Nat) :=
   match ts with
   | n :: rest =>
     match n.toNat? with
     | some k =>
       if rest.length < k then none else do
         let cols ← (rest.take k).mapM unhex
-        let cells ← (rest.drop k).mapM parseCell
-        pure (cols, cells)
+        let a ← parseItems (rest.drop k) {}
+        pure (cols, a.items, a.lens)
     | none => none
   | [] => none
+
+def lensText (lens : List Nat) : String :=
+  if lens.isEmpty then "" else " lens=" ++ ",".intercalate (lens.map toString)
 
 def step (st : St) (ts : List String) : St × String :=
   match ts with
@@ -142,15 +174,15 @@ def step (st : St) (ts : List String) : St × String :=
     | _, _ => (st, "bad-op")
   | "tabw" :: args =>
     match tableArgs args with
-    | some (cols, cells) => (st, hex (Csv.writeTable cols cells))
+    | some (cols, items, lens) => (st, hex (Csv.writeItems cols items) ++ lensText lens)
     | none => (st, "bad-op")
   | "tabrt" :: args =>
     match tableArgs args with
-    | some (cols, cells) => (st, dumpTable (Csv.readTable (Csv.writeTable cols cells)))
+    | some (cols, items, _) => (st, dumpTable (Csv.readTable (Csv.writeItems cols items)))
     | none => (st, "bad-op")
   | "tabrtx" :: args =>
     match tableArgs args with
-    | some (cols, cells) => (st, dumpTable (Csv.readTable (Csv.writeTable cols cells)))
+    | some (cols, items, _) => (st, dumpTable (Csv.readTable (Csv.writeItems cols items)))
     | none => (st, "bad-op")
   | ["tabread", h] =>
     match unhex h with
